@@ -5,7 +5,11 @@ Driver for C16.  One request line = one run of a transaction block under a fault
 
   run mode=<fast|locked|serializable> timeout=<ticks> attempts=<n> uprio=<b.lk,...|-> faults=<i,j,...|->
       data=<b.k.v.dl,...|-> flocks=<b.lk,...|-> body=<cmd;cmd;...|-> probe=<b.k.v>
-      step=<ticks per lock-step> hlocks=<b.lk,...|-> rel=<i.b.lk,...|->
+      step=<ticks per lock-step> hlocks=<b.lk,...|-> rel=<i.b.lk,...|-> rb=<head|all>
+
+faults: `i` = command i raises an Exception, `ib` = command i raises a BaseException that is no Exception (CancelledError).
+rb: the loop of `Transaction._rollback` - all = every backend is rolled back, a BaseException is re-raised at the end (as in
+/repo since 12f0cbb; what the harness asks for), head = the OLD loop, `except Exception` only (kept for the record).
 
 body commands: set.b.k.v.ttl  incr.b.k  get.b.k  del.b.k  adv.dt  raise  setmany.b.ttl.k:v+k:v+...  delmany.b.k+k+...
 (`-` = no ttl / no deadline).  `flocks`: lock keys held by a foreign owner for ever.  `hlocks`: lock keys held by
@@ -13,7 +17,7 @@ contending holders (other open transactions) when the block starts; `rel=i.b.lk`
 just before backend command `i`; every holder has finished by the time the remaining locks are reported.
 
 Answer (one line):
-  exc=<none|fault:i|locked|body> ctx=<none|some> (`~` = empty list) trace=<ev;...> outs=<r,...> locks=<b.lk.m|f.dl,...> data=<b.k=v,...> probe=<ok|lost>
+  exc=<none|fault:i|bfault:i|locked|body> ctx=<none|some> (`~` = empty list) trace=<ev;...> outs=<r,...> locks=<b.lk.m|f.dl,...> data=<b.k=v,...> probe=<ok|lost>
 -/
 open CashewsVerif CashewsVerif.Proto CashewsVerif.TxFault
 
@@ -61,6 +65,16 @@ def parseData? (s : String) : Option ((Nat × Nat) × DEntry) :=
   | [b, k, v, dl] => do pure ((← b.toNat?, ← k.toNat?), ⟨← v.toInt?, ← parseOptNat? dl⟩)
   | _ => none
 
+/-- `7` = an Exception at command 7, `7b` = a BaseException-only failure at command 7 -/
+def parseFault? (s : String) : Option (Nat × Bool) :=
+  if s.endsWith "b" then (s.dropEnd 1).toString.toNat?.map fun i => (i, true)
+  else s.toNat?.map fun i => (i, false)
+
+def parseRb? : String → Option Bool
+  | "head" => some false
+  | "all" => some true
+  | _ => none
+
 def parseProbe? (s : String) : Option (Nat × Nat × Int) :=
   match s.splitOn "." with
   | [b, k, v] => do pure (← b.toNat?, ← k.toNat?, ← v.toInt?)
@@ -96,7 +110,8 @@ def showReply : Reply → String
   | .int i => s!"n{i}"
 
 def showErr : Err → String
-  | .fault i => s!"fault:{i}"
+  | .fault i .exception => s!"fault:{i}"
+  | .fault i .baseException => s!"bfault:{i}"
   | .locked => "locked"
   | .body => "body"
 
@@ -107,7 +122,8 @@ def runLine (ws : List String) : Option String := do
   let timeout ← (← field? ws "timeout").toNat?
   let attempts ← (← field? ws "attempts").toNat?
   let uprio ← allSome ((splitList (← field? ws "uprio") ",").map parsePair?)
-  let faults ← allSome ((splitList (← field? ws "faults") ",").map String.toNat?)
+  let faults ← allSome ((splitList (← field? ws "faults") ",").map parseFault?)
+  let rbAll ← parseRb? (← field? ws "rb")
   let data ← allSome ((splitList (← field? ws "data") ",").map parseData?)
   let flocks ← allSome ((splitList (← field? ws "flocks") ",").map parsePair?)
   let body ← allSome ((splitList (← field? ws "body") ";").map parseBody?)
@@ -115,8 +131,8 @@ def runLine (ws : List String) : Option String := do
   let step ← (← field? ws "step").toNat?
   let hlocks ← allSome ((splitList (← field? ws "hlocks") ",").map parsePair?)
   let rel ← allSome ((splitList (← field? ws "rel") ",").map parseRel?)
-  let cfg : Cfg := ⟨mode, timeout, attempts, uprio, fun i => faults.contains i, step,
-    fun i => (rel.filter fun r => r.1 = i).map fun r => r.2⟩
+  let cfg : Cfg := ⟨mode, timeout, attempts, uprio, fun i => faults.any fun f => f.1 = i, step,
+    fun i => (rel.filter fun r => r.1 = i).map fun r => r.2, fun i => faults.any fun f => f.1 = i ∧ f.2, rbAll⟩
   let w0 : FWorld := { FWorld.init with data := data, locks := (flocks ++ hlocks).map fun p => (p, ⟨false, none⟩) }
   let (r, w1) := runBlock cfg body w0
   -- every holder has finished (released its lock) before the observer looks at the lock keys
